@@ -54,6 +54,8 @@ macro_rules! fail {
 #[derive(Clone, Debug, Default)]
 pub struct Stats {
     pub c: BTreeMap<&'static str, u64>,
+    /// fingerprints of schedule / state classes reached (distinct count goes into the evidence)
+    pub classes: Vec<u64>,
 }
 
 impl Stats {
@@ -69,7 +71,12 @@ impl Stats {
             *e = n;
         }
     }
+    /// Records that this run reached the schedule/state class with fingerprint `fp`.
+    pub fn class(&mut self, fp: u64) {
+        self.classes.push(fp);
+    }
     pub fn merge(&mut self, o: &Stats) {
+        self.classes.extend_from_slice(&o.classes);
         for (k, v) in &o.c {
             if k.starts_with("max_") {
                 self.max(k, *v);
@@ -263,6 +270,7 @@ impl WorkerOut {
         json!({
             "stats": self.stats.c.iter().map(|(k, v)| (k.to_string(), json!(v))).collect::<serde_json::Map<String, J>>(),
             "fps": self.fps,
+            "classes": self.stats.classes,
             "evals": self.evals,
             "samples": self.samples.iter().map(|(i, j)| json!([i, j])).collect::<Vec<_>>(),
             "failures": self.failures.iter().map(|(i, c, d)| json!([i, c, d])).collect::<Vec<_>>(),
@@ -280,6 +288,7 @@ impl WorkerOut {
             }
         }
         o.fps = j.get("fps").and_then(|v| v.as_array()).map(|a| a.iter().filter_map(|x| x.as_u64()).collect()).unwrap_or_default();
+        o.stats.classes = j.get("classes").and_then(|v| v.as_array()).map(|a| a.iter().filter_map(|x| x.as_u64()).collect()).unwrap_or_default();
         o.evals = j.get("evals").and_then(|v| v.as_u64()).unwrap_or(0);
         o.samples = j.get("samples").and_then(|v| v.as_array()).map(|a| a.iter().filter_map(|x| Some((x.get(0)?.as_u64()?, x.get(1)?.clone()))).collect()).unwrap_or_default();
         o.failures = j.get("failures").and_then(|v| v.as_array()).map(|a| a.iter().filter_map(|x| Some((x.get(0)?.as_u64()?, x.get(1)?.as_str()?.to_string(), x.get(2)?.as_str()?.to_string()))).collect()).unwrap_or_default();
@@ -328,6 +337,10 @@ fn worker_loop<K: Check>(k: &K, tier: Tier, seed: u64, w: u64, n: u64, total: u6
             *c.lock().unwrap() = None;
         }
         out.evals += 1;
+        if out.stats.classes.len() > 1 << 20 {
+            out.stats.classes.sort_unstable();
+            out.stats.classes.dedup();
+        }
         match r {
             Err(m) => {
                 out.harness_err = Some(format!("run {}: panic inside the oracle/harness: {}", i, m));
@@ -565,6 +578,8 @@ pub fn run_check_mode<K: Check>(k: &K, tier: Tier, runs_override: Option<u64>, i
     }
     fps.sort_unstable();
     fps.dedup();
+    stats.classes.sort_unstable();
+    stats.classes.dedup();
     samples.sort_by_key(|s| s.0);
     samples.truncate(3);
     failures.sort_by_key(|f| f.0);
@@ -656,6 +671,7 @@ pub fn run_check_mode<K: Check>(k: &K, tier: Tier, runs_override: Option<u64>, i
             "runs_per_hour": if wall > 0.0 { (evals as f64 / wall * 3600.0) as u64 } else { 0 },
             "simulated_time": "not applicable: the library has no clock or timer; the logical clock is the sequence of API calls and I/O completions, counted in 'counters'",
             "counters": counters,
+            "distinct_schedule_classes": stats.classes.len(),
             "probe_warnings": warnings,
             "known_finding_occurrences": kc.iter().map(|(c, (n, _))| (c.clone(), json!(n))).collect::<serde_json::Map<String, J>>(),
             "components": {
@@ -788,6 +804,9 @@ pub fn digest_runs<K: Check>(k: &K, tier: Tier, from: u64, to: u64) -> i32 {
         }
         for (name, v) in &st.c {
             f.s(name).u(*v);
+        }
+        for c in &st.classes {
+            f.u(*c);
         }
         println!("{} {:016x}", i, f.0);
     }
